@@ -266,6 +266,23 @@ func c28Absolute(r *core.Run, p *core.Prog) {
 		case *ast.RangeStmt:
 			loopPos = s.Pos()
 			xs := core.Str(resolveLocal(info, f.Decl.Body, s.X))
+			// the list may be assembled once in a package-level variable: read its initialiser
+			if id, ok := ast.Unparen(resolveLocal(info, f.Decl.Body, s.X)).(*ast.Ident); ok {
+				if v, ok := info.Uses[id].(*types.Var); ok && v.Parent() == f.Pkg.Types.Scope() {
+					for _, file := range f.Pkg.Syntax {
+						ast.Inspect(file, func(n ast.Node) bool {
+							if vs, ok := n.(*ast.ValueSpec); ok {
+								for i, nm := range vs.Names {
+									if info.Defs[nm] == v && i < len(vs.Values) && len(vs.Names) == len(vs.Values) {
+										xs = core.Str(vs.Values[i])
+									}
+								}
+							}
+							return true
+						})
+					}
+				}
+			}
 			okLists = strings.Contains(xs, "timeFormatsDefault") && strings.Contains(xs, "timeFormatsCustom") && strings.Index(xs, "timeFormatsDefault") < strings.Index(xs, "timeFormatsCustom")
 			// body: t, err = time.ParseInLocation(fmt.Format, str, loc); if err == nil { return t.Unix(), nil }
 			parse, ret := false, false
